@@ -202,11 +202,19 @@ impl<'a> Model<'a> {
         }
         let probes = w.probes(s.cfg, &around);
         let rebuilt = if self.checks.c02 || self.checks.c12 { Some(self.fresh_router(s.cfg, &s.live)) } else { None };
+        // Router::clone shares every Route (and its lazily compiled capture regex) with the original, so a
+        // clone that was warmed also warms the capture regexes of its source. The pristine router below is
+        // built from new Route objects and is never cloned nor cached: the truly uncached baseline.
+        let pristine = if self.checks.c12 { Some(self.fresh_router(s.cfg, &s.live)) } else { None };
         let cached_variants: Vec<(String, Router<Rule>)> = if self.checks.c12 {
             let n = s.live.len() as u64 * 3 + 2;
             let mut v = Vec::new();
             let mut limits: Vec<Option<u64>> = vec![None];
             for l in 0..=n {
+                // quick tier: every limit up to 4, then the largest (everything cached); thorough: every limit
+                if self.ctx.tier == crate::common::Tier::Quick && l > 4 && l < n {
+                    continue;
+                }
                 limits.push(Some(l));
             }
             for l in limits {
@@ -221,6 +229,15 @@ impl<'a> Model<'a> {
             twice.cache(Some(1));
             twice.cache(Some(1));
             v.push(("state.cache(1).cache(1)".into(), twice));
+            let mut twice_all = s.router.as_ref().clone();
+            twice_all.cache(None);
+            twice_all.cache(None);
+            v.push(("state.cache(None).cache(None)".into(), twice_all));
+            let mut fresh_twice = self.fresh_router(s.cfg, &s.live);
+            fresh_twice.cache(None);
+            fresh_twice.cache(None);
+            fresh_twice.cache(Some(1000));
+            v.push(("new.cache(None).cache(None).cache(1000)".into(), fresh_twice));
             let mut ab = s.router.as_ref().clone();
             ab.cache(Some(1));
             ab.cache(None);
@@ -327,8 +344,19 @@ impl<'a> Model<'a> {
                         Some(idx),
                     );
                 }
+                let pristine_obs = observe(pristine.as_ref().unwrap(), &req);
                 for (name, r) in &cached_variants {
                     let o = observe(r, &req);
+                    if answers_part(&o) != answers_part(&pristine_obs) {
+                        self.report(
+                            s,
+                            "cached-router-answers-differ-from-never-cached",
+                            "",
+                            format!("{name} answers {} for {probe:?}; a router built from the same rules and never cached answers {}", answers_part(&o), answers_part(&pristine_obs)),
+                            Some(idx),
+                        );
+                        break;
+                    }
                     let (base, what) = if name.starts_with("state") { (&state_obs, "state") } else { (&fresh_obs, "fresh") };
                     if &o != base {
                         self.report(
